@@ -725,7 +725,7 @@ def reassign_st(draw, tier="quick"):
 
 def tasks(tier):
     return [
-        Task("faults", strategy=scenario_st(tier), run=run_faults, examples={"quick": 800, "thorough": 10000}),
+        Task("faults", strategy=scenario_st(tier), run=run_faults, examples={"quick": 520, "thorough": 10000}),
         Task("nesting", machine=machine, run=run_nesting, examples={"quick": 2000, "thorough": 16000},
              steps={"quick": 14, "thorough": 24}),
         Task("reassign", strategy=reassign_st(tier), run=run_reassign, examples={"quick": 120, "thorough": 1000}),
